@@ -122,3 +122,22 @@ def centred_cov_pca(ck, prog):
 def run(ck, prog):
     _run_pre_centred(ck, prog)
     centred_cov_pca(ck, prog)
+
+
+# ------------------------------------------------------------------ per-row outputs: no state carried between row iterations
+_run_pre_isolation = run
+ISOLATION_FNS = [('PCA::transform', '^decomposition::pca::PCA::<T, M>::transform$')]
+
+
+def run(ck, prog):
+    _run_pre_isolation(ck, prog)
+    from sa import isolation
+    isolation.run_rule(ck, prog, ISOLATION_FNS, xarg=2)
+
+
+EXPLANATION += (" Row-loop isolation (E2-isolation): in the `for i in 0..rows(x)` loop of PCA::transform every piece of state an "
+                "iteration reads is completely re-defined earlier in the same iteration (fresh allocation, whole assignment, fill/clear/"
+                "copy_row_as_vec, or a reset loop over the full length), except the loop iterator and the result container written "
+                "at row i only: a buffer hoisted out of the loop and only partly reset makes the output for a row depend on the rows "
+                "processed before it.")
+TECHNIQUE += "; loop-carried-state (iteration isolation) rule on the row loops"
